@@ -22,17 +22,38 @@ from tools import common
 LEVEL = "proof"
 MANIFEST = dict(
     category="proof",
-    text="Lean 4 theorems over a model of the enum value logic (todict.PrintNode/PrintNodeIdentifier, ast.int_literal, "
-         "the two loops of ast.EnumNode.__init__, the member lines of wrapc/wrapf.wrap_enum) together with a reference "
-         "semantics of the C++ enumeration and evaluators of the emitted C and Fortran text; the model is tied to the code "
-         "on every run by differential correspondence through the compiled Lean driver on grammar-generated enumerations "
-         "parsed by the real parser; an implementation-only oracle compiles the C++ original (g++), the emitted C text "
-         "(gcc -std=c99) and the emitted Fortran text (gfortran -std=f2008) and compares every member value.",
+    text="Lean 4 theorems (induction, no size/depth bound) over a model of the enum value logic after the fix: commits "
+         "(todict.PrintNode/PrintNodeIdentifier, ast.int_literal, both loops of ast.EnumNode.__init__, the lines "
+         "wrapc/wrapf/wrapp.wrap_enum append and their rendering by write_lines). enum_values_preserved: for every "
+         "enumeration in the accepted grammar (EnumOK: parser-shaped trees over + - * /, unary signs, parentheses, integer "
+         "literals incl. octal, earlier members; plain or scoped; any scope prefix) with cxxEnum ms = some vs, the C "
+         "reading of the generated enumerator list and the Fortran reading of the generated parameter statements give "
+         "exactly vs. enum_blocks_preserved / enum_fortran_block: the same for the emitted FILE blocks (blank line, "
+         "comment, 'enum NAME {', indented members with the last-comma rule, '};' / '!  enum [class] ...', "
+         "'integer(C_INT), parameter :: name = value') read back by block parsers (C block needs a non-empty member list; "
+         "empty_enum_c_block_rejected is the witness why). value_text_preserved, int_literal_agrees: per expression. "
+         "py_value_is_enumerator / py_module_items: the Python wrapper writes one constant per member whose value "
+         "expression names that very C++ enumerator (scoped: static_cast<long>(scope::Enum::member)), so the value is the "
+         "C++ compiler's by construction; nothing is recomputed. No _partial statements. Lua emits no enumerators.",
     design="3 C11",
-    note="Trusted: Lean kernel; the hand-written model Model/Enum.lean and its reading of C / Fortran constant expressions, "
-         "validated against g++/gcc/gfortran on the oracle batches only; the expression tree is the real parser's (C09); "
-         "values and intermediate results are assumed to fit int; member names distinct also case-insensitively.",
-    technique="Lean 4 proof + differential correspondence model/implementation + three-compiler oracle",
+    note="Ties (every run): real parser tree + real EnumNode + real wrapc/wrapf/wrapp.wrap_enum items and their rendering "
+         "by the real write_lines, and blocks cut from whole-program generated files, vs the compiled Lean driver "
+         "(per-member names/values, whole C / Fortran blocks, Python items, wf of every real tree, block readers on the "
+         "real text). Oracles (implementation only): independent Python evaluators on all emitted texts; g++ on the "
+         "original vs gcc -std=c99 on the emitted header text, gfortran -std=f2008 on the emitted parameters and a CPython "
+         "extension built from the emitted Python lines; grammar-boundary table (21 C++ initialisers outside + - * /: "
+         "shifts, | & ^ ~ %, char/hex/suffixed literals, ?:, comparisons, sizeof, qualified names are all rejected with "
+         "'Parse Error'; f(1) and outer constants are copied and rejected downstream by gcc/gfortran); range table for "
+         "values outside int (correct or compiler diagnostic, except one recorded known finding: an implicit member after "
+         "an expression member overflowing C_INT is folded silently by gfortran). Trusted / modelled-not-verified: Lean "
+         "kernel; the hand-written model and its C (maximal munch, C89 enumerator list) and Fortran (level-2 expression, "
+         "case-insensitive names) observers, validated against the compilers on the oracle batches only; write_lines is "
+         "modelled for the +/- directives only (C13 has the full model); the expression tree is the real parser's (C09); "
+         "values and intermediate results fit int (mathematical integers in the model); member names are identifiers "
+         "(Fortran: start with a letter) and distinct case-insensitively; Python constant names of different enumerations "
+         "may collide in one module (noted, not a value question).",
+    technique="Lean 4 proof by induction (expression tree, member list, loop invariant) + differential correspondence "
+              "model/implementation through a compiled driver + four-compiler oracle (g++, gcc, gfortran, CPython extension)",
 )
 MODULES = ["ShroudVerif.Props.C11"]
 THEOREMS = {
@@ -42,6 +63,11 @@ THEOREMS = {
         "Shroud.Enum.enum_fortran_values",
         "Shroud.Enum.value_text_preserved",
         "Shroud.Enum.int_literal_agrees",
+        "Shroud.Enum.enum_blocks_preserved",
+        "Shroud.Enum.enum_fortran_block",
+        "Shroud.Enum.py_value_is_enumerator",
+        "Shroud.Enum.py_module_items",
+        "Shroud.Enum.empty_enum_c_block_rejected",
         "Shroud.Enum.old_text_1mm1_rejected",
         "Shroud.Enum.old_text_octal_misread",
         "Shroud.Enum.exEnum_ok",
@@ -582,11 +608,11 @@ def real_side(it):
     e = common.enc
     try:
         parent, node = build_real(it["scope"], it["decl"])
-    except Exception as ex:  # noqa
+    except (Exception, SystemExit) as ex:  # noqa  (util.wformat stops with SystemExit)
         return ("crash", "%s: %s" % (type(ex).__name__, ex))
     try:
         em = emit(node)
-    except Exception as ex:  # noqa
+    except (Exception, SystemExit) as ex:  # noqa  (util.wformat stops with SystemExit)
         return ("crash", "emit %s: %s" % (type(ex).__name__, ex))
     it.update(em)
     it["c_lines"] = [parse_c_member(l) for l in em["c_raw"]]
@@ -1111,7 +1137,7 @@ def boundary_oracle(ctx, d):
             except RuntimeError as ex:
                 first = str(ex).strip().split("\n")[0]
                 lib_res = ("rejected", first) if "Parse Error" in str(ex) else ("other", "RuntimeError: " + first)
-            except Exception as ex:  # noqa
+            except (Exception, SystemExit) as ex:  # noqa  (util.wformat stops with SystemExit)
                 lib_res = ("other", "%s: %s" % (type(ex).__name__, " ".join(str(ex).split())[:120]))
             prog_res = shroud_outcome(scope, decl, d)
             if lib_res[0] == "other" or prog_res[0] == "partial":
@@ -1181,7 +1207,7 @@ def empty_enum_observation(ctx, d):
         wc.enum_impl = []
         wc.wrap_enum(None, node)
         block = render_real(wc, list(wc.enum_impl), 0, node.options.C_line_length, "")
-    except Exception as ex:  # noqa
+    except (Exception, SystemExit) as ex:  # noqa  (util.wformat stops with SystemExit)
         ctx.note("empty_enum", "diagnostic: %s: %s" % (type(ex).__name__, ex))
         return
     sub = tempfile.mkdtemp(prefix="ee", dir=d)
